@@ -62,3 +62,54 @@ Section FrontProofs.
   Qed.
 
 End FrontProofs.
+
+(** ** parseMethods: all or nothing — success means every method has its entry, in order *)
+Section ParseMethods.
+  Variable d : dump.
+
+  Lemma parse_methods_loop_all ms : forall opts st acc failed ev0 res st' ev,
+    parse_methods_loop d ms opts st acc failed ev0 = (Ok res, st', ev) ->
+    failed = false /\ exists new, res = rev acc ++ new /\ List.map me_decl new = ms.
+  Proof.
+    induction ms as [|m ms IH]; intros opts st acc failed ev0 res st' ev H; simpl in H.
+    - destruct failed; [discriminate|]. injection H as <- <- <-. split; [reflexivity|].
+      exists []. now rewrite app_nil_r.
+    - destruct (parse_method d m opts st) as [[[me|e|s| |w] ev1] st1] eqn:Ep; try discriminate.
+      + destruct (IH _ _ _ _ _ _ _ _ H) as (Hf & new & -> & Hm). split; [assumption|].
+        exists (me :: new). simpl. rewrite <- app_assoc. simpl. split; [reflexivity|].
+        f_equal; [|assumption].
+        (* the entry of m carries m *)
+        unfold parse_method in Ep.
+        destruct (sg_ptys (md_sig m)); [discriminate|]. destruct (sg_rtys (md_sig m)); [discriminate|].
+        destruct (extract_notations st (get_doc st (md_chain m))) as [nots st2].
+        destruct (parse_notations d Extracted.valid_ops_method nots opts) as [[o| | | |] ?]; try discriminate.
+        injection Ep as <- _ _. reflexivity.
+      + destruct (IH _ _ _ _ _ _ _ _ H) as (Hf & _). discriminate.
+  Qed.
+End ParseMethods.
+
+(** ** the nil-regexp site of PatternMatcher.Match is unreachable *)
+Definition pm_ok (m : pmatcher) : Prop := pm_re m <> CNil.
+
+Lemma pm_match_never_nil m i ex : pm_ok m -> fst (pm_match m i ex) <> MPanic /\ pm_ok (snd (pm_match m i ex)).
+Proof.
+  unfold pm_ok, pm_match. intros Hm.
+  destruct (Bool.eqb (pm_exact m) ex).
+  - destruct (pm_re m) eqn:E; simpl; rewrite ?E; split; congruence.
+  - destruct (compile_pattern (pm_pattern m) ex) eqn:Ec; simpl.
+    + split; discriminate.
+    + destruct (pm_re m) eqn:E; simpl; rewrite ?E; split; congruence.
+    + split; discriminate.
+Qed.
+
+Lemma should_skip_never_panics ms name ex : Forall pm_ok ms -> should_skip ms name ex <> MPanic.
+Proof.
+  induction 1 as [|m ms Hm _ IH]; simpl; [discriminate|].
+  destruct (pm_match_never_nil m name ex Hm) as [H1 _].
+  destruct (fst (pm_match m name ex)) as [[|]| |]; try discriminate; try assumption.
+Qed.
+
+Lemma new_pmatcher_ok p ex m : new_pmatcher p ex = Some m -> pm_ok m.
+Proof.
+  unfold new_pmatcher, pm_ok. destruct (compile_pattern p ex) eqn:E; try discriminate; intros H; injection H as <-; simpl; congruence.
+Qed.
